@@ -254,6 +254,8 @@ def canon_value(v, type_, internal=False) -> str:
     if isinstance(type_, g.GraphQLScalarType) and name in _BUILTIN_SCALARS:
         if name == "Int" and isinstance(v, int) and not isinstance(v, bool):
             return str(int(v))
+        if name == "Int" and isinstance(v, float) and v == v and abs(v) != float("inf") and v == int(v):
+            return str(int(v))  # a float with an integral value is a legal Int input (specification 3.5.1, input coercion)
         if name == "Float" and isinstance(v, (int, float)) and not isinstance(v, bool):
             return _float_text(v)
         if name == "String" and isinstance(v, str):
